@@ -941,6 +941,35 @@ fn main() {
             let names = ["Ok(Some)", "Ok(None)", "Err(KeyNotFound)", "Err(other)"];
             println!("second_build_get={}", names[code as usize]);
         }
+        "get_unreadable_newest" => {
+            // one key with a version in each of three table files (three levels); the newest file is damaged
+            use raindb::{ReadOptions, WriteOptions};
+            let mut o = raindb::DbOptions::with_memory_env();
+            o.db_path = "db".to_string();
+            o.create_if_missing = true;
+            {
+                let db = raindb::DB::open(o.clone()).expect("open");
+                for val in ["v1", "v2", "v3"] {
+                    db.put(WriteOptions::default(), b"key".to_vec(), val.as_bytes().to_vec()).unwrap();
+                    db.put(WriteOptions::default(), format!("only-{}", val).into_bytes(), val.as_bytes().to_vec()).unwrap();
+                    let _ = db.flush_for_verif();
+                }
+                println!("levels={}", db.get_descriptor(raindb::db::DatabaseDescriptor::SSTables).map(|d| format!("{:?}", d)).unwrap_or_default().replace('\n', " ").replace("\\n", " "));
+                println!("get_before_damage={:?}", db.get(ReadOptions::default(), b"key").map(|v| String::from_utf8_lossy(&v).to_string()).map_err(|e| format!("{:?}", e)));
+            }
+            let nums = v::table_numbers(&o);
+            println!("tables={:?}", nums);
+            let newest = *nums.last().expect("a table");
+            println!("damaged={}", v::flip_table_byte(&o, newest, 12));
+            match raindb::DB::open(o.clone()) {
+                Err(e) => println!("get_after_damage=OpenErr({:?})", e),
+                Ok(db) => match db.get(ReadOptions::default(), b"key") {
+                    Ok(v) => println!("get_after_damage=Ok({})", String::from_utf8_lossy(&v)),
+                    Err(raindb::errors::RainDBError::KeyNotFound) => println!("get_after_damage=Err(KeyNotFound)"),
+                    Err(e) => println!("get_after_damage=Err({})", format!("{:?}", e).chars().take(60).collect::<String>()),
+                },
+            }
+        }
         "vs_recover" => {
             // a database is created, written and closed; a fresh version set recovers from its files
             use raindb::WriteOptions;
